@@ -74,6 +74,12 @@ def cases(tier, seed):
     for b in range({"quick": 3, "thorough": 30}[tier]):
         out.append({"kind": "faults", "n_steps": None, "every": 1 + b % 3, "seed": [seed, 12, k], "k": k})
         k += 1
+    # the other sampler sharing the checkpointing loop, and another array namespace
+    variants = [("emcee_smc", "numpy"), ("smc", "torch"), ("emcee_smc", "torch"), ("smc", "jax")]
+    for b in range({"quick": 6, "thorough": 72}[tier]):
+        smp, xpn = variants[b % len(variants)]
+        out.append({"kind": "faults", "n_steps": [None, 1, 2, 3, 4, 6][(b // len(variants)) % 6], "every": 1 + (b // 2) % 3, "seed": [seed, 12, k], "k": k, "sampler": smp, "xp": xpn})
+        k += 1
     for b in range({"quick": 6, "thorough": 120}[tier]):
         out.append({"kind": "dump", "seed": [seed, 122, k]})
         k += 1
@@ -96,7 +102,7 @@ def read_file(path):
 
 def mk_cfg(g, case, n):
     t = Target([Coord("box", -5.0, 5.0, float(g.uniform(-1, 1)), float(g.uniform(0.4, 0.9)))])
-    cfg = recorded.default_cfg(g, target=t.describe(), sampler="smc", xp="numpy", n=n)
+    cfg = recorded.default_cfg(g, target=t.describe(), sampler=case.get("sampler", "smc"), xp=case.get("xp", "numpy"), n=n)
     cfg["kernel_steps"] = 1
     cfg["flow"] = {"truncate": False, "widen": 3.0, "shift": 0.5}
     if case["n_steps"] is None:
@@ -166,7 +172,7 @@ def faults_case(case, counters, viol, nontrivial):
     cfg = mk_cfg(g, case, n)
     mode = "auto" if case["k"] % 2 else "path"
     prepopulate = case["k"] % 3 == 0
-    shown = {"n": n, "opts": cfg["opts"], "every": cfg["ckpt_every"], "mode": mode, "file": "left by a bigger run" if prepopulate else "fresh"}
+    shown = {"n": n, "sampler": cfg["sampler"], "xp": cfg["xp"], "opts": cfg["opts"], "every": cfg["ckpt_every"], "mode": mode, "file": "left by a bigger run" if prepopulate else "fresh"}
     where = f"{shown}"
     counters["configurations"] += 1
     # ---- reference run into a fresh file: cadence oracle + file probe at every call
@@ -222,6 +228,10 @@ def faults_case(case, counters, viol, nontrivial):
                     n_before = res.n_before_second
                 else:
                     res, probe, a = one_run(cfg, path, mode, fault=(kind, idx))
+                if res.exc is None and cfg["sampler"] == "emcee_smc":
+                    # this sampler takes no random source: the run is not a replay of the reference run and may make fewer calls
+                    counters["fault_index_beyond_unseeded_run"] += 1
+                    continue
                 if res.exc is None:
                     viol.append({"mech": "C12/fault-not-reached", "detail": f"{where}: {kind} call {idx} of {total}"})
                     continue
